@@ -83,6 +83,8 @@ def run_selftest(prop) -> int:
         rc, rules, tail = res
         if v["expect"] == "silent":
             good = rc == 0
+        elif v["expect"] == "no-alarm":
+            good = rc in (0, 2)  # a behaviour-preserving rewrite that uses constructs outside the model: `cannot analyse` is acceptable, an alarm is not
         else:
             good = rc == 1 and (v["expect"] == "any" or any(r == v["expect"] or r.startswith(v["expect"]) for r in rules))
         rows.append({"name": v["name"], "expect": v["expect"], "exit": rc, "rules": rules, "ok": good})
